@@ -120,6 +120,36 @@ pub fn record_c11(rng: &mut Rng, count: u64, out: &mut Out) {
                       "st": big_digits(v.4), "fs": big_digits(v.5), "in": format!("{}", nside)}));
       continue;
     }
+    if k % 16 == 7 {
+      // class "seam-scan": 200 latitudes of a polar cap (half of them in the first rings beyond the transition latitude) on a
+      // meridian k pi/2 nudged by -2 .. +2 ulp: whether the offsets of hash_with_dxdy stay in [0, 1] and sph_coo inverts them
+      // depends on the rounding of each latitude, so one position per event would hardly ever meet the bad ones
+      let km = rng.below(9) as f64 - 2.0;
+      let ulp = rng.below(5) as i32 - 2;
+      let lon = nudge(km * HALF_PI, ulp);
+      let south = rng.bool();
+      let tl = 0.7297276562269663;
+      let (mut dxmin, mut dxmax, mut dymin, mut dymax, mut backmax, mut panics, mut diff) = (f64::MAX, f64::MIN, f64::MAX, f64::MIN, 0i64, 0, 0);
+      for s in 0..200 {
+        let a = if s % 2 == 0 { tl + rng.f64() * 3.0 / nside as f64 } else { tl + rng.f64() * (HALF_PI - tl) };
+        let lat = (if south { -a } else { a }).max(-HALF_PI).min(HALF_PI);
+        match (guarded(|| ring::hash(nside, lon, lat)), guarded(|| ring::hash_with_dxdy(nside, lon, lat))) {
+          (Some(h), Some((h2, dx, dy))) => {
+            if h != h2 { diff += 1; }
+            if !(dx.is_finite() && dy.is_finite()) { panics += 1; continue; }
+            dxmin = dxmin.min(dx); dxmax = dxmax.max(dx); dymin = dymin.min(dy); dymax = dymax.max(dy);
+            if dx >= 0.0 && dx < 1.0 && dy >= 0.0 && dy < 1.0 && h2 < nh {
+              backmax = backmax.max(guarded(|| ring::sph_coo(nside, h2, dx, dy)).map_or(2_000_000_000, |(l, b)| err15(ang_dist(l, b, lon, lat))));
+            }
+          }
+          _ => panics += 1,
+        }
+      }
+      let mic = |x: f64| if x.is_finite() && x.abs() < 1e3 { (x * 1e6).round() as i64 } else { 999_999_999 };
+      out.emit(json!({"ev": "ring_scan", "n": nside, "south": south as u8, "p": panics, "diff": diff, "dxmin": mic(dxmin), "dxmax": mic(dxmax), "dymin": mic(dymin), "dymax": mic(dymax),
+                      "back": backmax, "in": format!("{} ulp={} south={}", pos_str(lon, 0.0), ulp, south)}));
+      continue;
+    }
     match k % 4 {
       0 | 1 => {
         // hash of a position: RING index of a cell whose closure contains the position
